@@ -103,11 +103,38 @@ PROPS['C13'] = {
     ],
 }
 
-FIX_COMMITS = ['4bb8197', '4c9a29a', '15147a8', '4e117ba']
+TRUSTED_ALLOW['rd'] = TRUSTED_ALLOW['bits'] | TRUSTED_ALLOW['page_r'] | {
+    'external_body:shim_le_u16', 'external_body:shim_le_u64', 'external_body:shim_u16_from_le_bytes', 'external_body:clone',
+    'external_body:shim_vec_bsr', 'external_body:shim_vec_queues', 'external_body:shim_vec_usize_zeros',
+    'external_body:shim_vec_u8_zeros', 'external_body:shim_resize_u8',
+}
+_RD_ASSUME = [
+    'type invariant of PointCloud assumed as precondition (established on the XML side, RecordDataType::from_node): integer ranges are ordered (min <= max)',
+    'files are smaller than 512 PiB and the target is 64-bit (usize arithmetic on buffer and queue lengths)',
+    'derive(Clone) of PointCloud is structural; vec![x; n] builds n copies (shims)',
+    '`reader: &mut dyn Read` parameters are instantiated with the extracted PagedReader, the only reader the crate passes there',
+]
+PROPS['C03'] = {
+    'level': 'proof',
+    'verus': ['bits', 'rd'],
+    'claim': ('Reader side on every legal packetisation, by contracts on the real bodies: PacketHeader/Index/Data/Ignored header parsers and '
+              'CompressedVectorSectionHeader::read consume exactly 16/6/4/32 bytes and return kind, length field + 1 and stream count of the logical '
+              'stream; QueueReader::advance skips index and ignored packets by exactly their declared length, consumes header + n sizes + the '
+              'announced stream bytes of a data packet and aligns to 4, appends every stream chunk to its own bit buffer (carry-over of partial '
+              'values = ByteStreamReadBuffer::append/extract contracts, C12), decodes with the unpack_* contracts (exactly floor(rest/w) values, '
+              'leftover kept), fills zero-width records; pop_point takes one value from the front of each queue in prototype order; the raw '
+              'iterator yields at most `records` points. XML lexical variants and attribute defaults are excluded (C04).'),
+    'trusted': GLOBAL_TRUSTED + [_DEV, _CRC_OFF],
+    'assumptions': [_DEV] + _RD_ASSUME + PROPS['C12']['assumptions'] + [
+        'the value-level composition (decoded queue contents = encoded values for a whole section) is carried by the per-function contracts of bits + rd; no end-to-end composition lemma over whole files is proved',
+        'XML lexical forms, omitted optional type attributes (defaults) and metadata are outside (roxmltree; see C04 not applicable)'],
+}
+
+FIX_COMMITS = ['4bb8197', '4c9a29a', '15147a8', '4e117ba', 'b93d656']
 
 _PENDING = 'unit not completed yet in the build round (applicable; see DESIGN.md §1) — not claimed until its obligations are discharged'
 NOT_APPLICABLE = {
-    'C01': _PENDING, 'C02': _PENDING, 'C03': _PENDING,
+    'C01': _PENDING, 'C02': _PENDING,
     'C04': 'lives entirely in format!-built strings and roxmltree parsing; no contract within reach of Verus (no str byte reasoning) or Kani (roxmltree does not finish) can state parse(serialise(x)) = x (DESIGN.md §6)',
     'C05': _PENDING, 'C06': _PENDING, 'C08': _PENDING, 'C09': _PENDING, 'C10': _PENDING,
     'C14': _PENDING, 'C15': _PENDING, 'C16': _PENDING, 'C17': _PENDING,
